@@ -387,7 +387,7 @@ class YncaCommandHandler(socketserver.StreamRequestHandler):
 
             bytes_line = bytes_line.strip()
             line = bytes_line.decode(
-                "utf-8"
+                "utf-8", "replace"
             )  # Note that YNCA spec says in some places that text can be ASCII, Latin-1 or UTF-8 without a way to indicate what it is :/ UTF-8 seems to work fine for now
             print(f"Recv - {line}")
 
